@@ -18,6 +18,51 @@ pub fn is_valid_permutation(ndim: usize, permutation: &[usize]) -> bool {
         && (0..ndim).all(|dim| permutation.iter().filter(|d| **d == dim).count() == 1)
 }
 
+/// Return the number of elements in a tensor with a given shape, or `None` if
+/// the shape is too large.
+///
+/// As with slices and `Vec`, tensors are limited to `isize::MAX` elements. The
+/// limit applies to the product of the non-zero dimension sizes, so that
+/// computing the length and contiguous strides of a shape, or of any slice of
+/// it (including empty ones), cannot overflow.
+pub(crate) fn checked_shape_len<S: SizeArray>(shape: &S) -> Option<usize> {
+    let mut len: usize = 1;
+    let mut is_empty = false;
+    for size in shape.iter() {
+        if size == 0 {
+            is_empty = true;
+        } else {
+            len = len
+                .checked_mul(size)
+                .filter(|len| *len <= isize::MAX as usize)?;
+        }
+    }
+    Some(if is_empty { 0 } else { len })
+}
+
+/// Return the minimum storage length for a layout with the given shape and
+/// strides, or `None` if the shape is too large (see [`checked_shape_len`]) or
+/// the largest offset does not fit in `isize`.
+///
+/// This computes the same value as [`Layout::min_data_len`], but fails instead
+/// of overflowing. Layouts must pass this check before the unchecked
+/// arithmetic in `Layout` methods and the overlap checks can be relied upon.
+pub(crate) fn checked_min_data_len<S: SizeArray, St: SizeArray>(
+    shape: &S,
+    strides: &St,
+) -> Option<usize> {
+    let len = checked_shape_len(shape)?;
+    let mut max_offset: usize = 0;
+    for (size, stride) in shape.iter().zip(strides.iter()) {
+        let dim_max_offset = size.saturating_sub(1).checked_mul(stride)?;
+        max_offset = max_offset.checked_add(dim_max_offset)?;
+    }
+    if max_offset >= isize::MAX as usize {
+        return None;
+    }
+    Some(if len == 0 { 0 } else { max_offset + 1 })
+}
+
 /// Merge dimensions of a layout where possible.
 ///
 /// Two dimensions with sizes N1, N2 and strides S1, S2 can be merged into a
@@ -876,7 +921,7 @@ impl<const N: usize, const M: usize> BroadcastLayout<NdLayout<M>> for NdLayout<N
         shape: S,
     ) -> Result<NdLayout<M>, ExpandError> {
         let shape: [usize; M] = shape.as_ref().try_into().unwrap();
-        if !self.can_broadcast_to(&shape) {
+        if !self.can_broadcast_to(&shape) || checked_shape_len(&shape).is_none() {
             return Err(ExpandError::ShapeMismatch);
         }
         let mut strides = [0usize; M];
@@ -905,7 +950,7 @@ impl BroadcastLayout<DynLayout> for DynLayout {
     ) -> Result<DynLayout, ExpandError> {
         let to_shape = shape.as_ref();
 
-        if !self.can_broadcast_to(to_shape) {
+        if !self.can_broadcast_to(to_shape) || checked_shape_len(&to_shape).is_none() {
             return Err(ExpandError::ShapeMismatch);
         }
 
@@ -932,6 +977,11 @@ impl<const N: usize> BroadcastLayout<NdLayout<N>> for DynLayout {
 
 impl<const N: usize> FromShape for NdLayout<N> {
     fn from_shape(shape: [usize; N]) -> Self {
+        assert!(
+            checked_shape_len(&shape).is_some(),
+            "shape {:?} is too large",
+            shape
+        );
         Self {
             shape,
             strides: Self::contiguous_strides(shape),
@@ -946,6 +996,13 @@ impl<const N: usize> MutLayout for NdLayout<N> {
         overlap: OverlapPolicy,
     ) -> Result<Self, FromDataError> {
         let layout = NdLayout { shape, strides };
+
+        // No storage is long enough for a layout whose size or largest offset
+        // overflows. This also ensures the arithmetic in the overlap check
+        // below cannot overflow.
+        if checked_min_data_len(&layout.shape, &layout.strides).is_none() {
+            return Err(FromDataError::StorageTooShort);
+        }
 
         match overlap {
             OverlapPolicy::DisallowOverlap => {
@@ -1060,6 +1117,11 @@ impl<const N: usize> MutLayout for NdLayout<N> {
 
 impl FromShape for DynLayout {
     fn from_shape(shape: &[usize]) -> Self {
+        assert!(
+            checked_shape_len(&shape).is_some(),
+            "shape {:?} is too large",
+            shape
+        );
         DynLayout {
             shape_and_strides: Self::contiguous_shape_and_strides(shape),
         }
@@ -1076,6 +1138,13 @@ impl MutLayout for DynLayout {
         shape_and_strides.extend_from_slice(shape);
         shape_and_strides.extend_from_slice(strides);
         let layout = DynLayout { shape_and_strides };
+
+        // No storage is long enough for a layout whose size or largest offset
+        // overflows. This also ensures the arithmetic in the overlap check
+        // below cannot overflow.
+        if checked_min_data_len(&layout.shape(), &layout.strides()).is_none() {
+            return Err(FromDataError::StorageTooShort);
+        }
 
         match overlap {
             OverlapPolicy::DisallowOverlap => {
@@ -1590,6 +1659,48 @@ mod tests {
 
     fn layout_with_strides<const N: usize>(shape: [usize; N], strides: [usize; N]) -> NdLayout<N> {
         NdLayout::from_shape_and_strides(shape, strides, OverlapPolicy::AllowOverlap).unwrap()
+    }
+
+    // The square of this value wraps around to zero.
+    const BIG: usize = 1 << (usize::BITS / 2);
+
+    #[test]
+    fn test_checked_shape_len() {
+        use super::checked_shape_len;
+
+        assert_eq!(checked_shape_len(&[0usize; 0]), Some(1));
+        assert_eq!(checked_shape_len(&[2, 3, 4]), Some(24));
+        assert_eq!(checked_shape_len(&[2, 0, 4]), Some(0));
+        assert_eq!(
+            checked_shape_len(&[isize::MAX as usize]),
+            Some(isize::MAX as usize)
+        );
+        assert_eq!(checked_shape_len(&[isize::MAX as usize, 2]), None);
+        assert_eq!(checked_shape_len(&[BIG, BIG]), None);
+        assert_eq!(checked_shape_len(&[0, BIG, BIG]), None);
+    }
+
+    #[test]
+    fn test_from_shape_and_strides_too_large() {
+        use crate::errors::FromDataError;
+
+        // Element count overflows.
+        let result =
+            NdLayout::from_shape_and_strides([BIG, BIG], [0, 0], OverlapPolicy::AllowOverlap);
+        assert_eq!(result, Err(FromDataError::StorageTooShort));
+
+        // Largest offset overflows.
+        for policy in [OverlapPolicy::AllowOverlap, OverlapPolicy::DisallowOverlap] {
+            let result =
+                DynLayout::from_shape_and_strides(&[3, 2], &[1 << (usize::BITS - 1), 1], policy);
+            assert_eq!(result, Err(FromDataError::StorageTooShort));
+        }
+    }
+
+    #[test]
+    #[should_panic(expected = "is too large")]
+    fn test_from_shape_too_large() {
+        NdLayout::from_shape([BIG, BIG]);
     }
 
     #[test]
